@@ -2,4 +2,5 @@ From Coq Require Import Extraction ExtrOcamlBasic.
 Require Import NixV.Base.Prelude NixV.Base.F64 NixV.Valid.Validator NixV.Valid.ValidSpec.
 Extraction Language OCaml.
 Extraction "model_C19.ml" validate validate_current tagUnits_variant propUnit_variant
-  conforms conforms_ent entities ent_id verdicts judge breach soft any_breach ofZ.
+  conforms conforms_ent entities ent_id verdicts judge breach soft any_breach ofZ
+  validate_ent validate_dimension validate_file has_errors has_warnings result_ok.
